@@ -422,9 +422,12 @@ package jet
 
 //@ func (*Template).parseTemplate
 //@   props C02 C03 C08
-//@   requires PInv(t) && len(t.imports) == 0
+//@   requires PInv(t) && len(t.imports) == 0 && t.extends == nil
 //@   modifies @Parse, t.Root, t.extends, t.imports
 //@   loop 0 invariant PInv(t) && t.Root != nil && fresh(t.Root)
+//@   loop 0 invariant [whitespace-before-any-extends-or-import-is-remembered] {C03} t.extends == nil && len(t.imports) == 0 && visits("(*Template).next", 0) > 0 ==> leading != nil && leading.typ == itemText
+//@   loop 0 invariant [whitespace-next-to-a-clause-is-dropped] {C03} t.extends != nil || len(t.imports) > 0 ==> leading == nil
+//@   callsite (*Template).newText 0 requires [kept-whitespace-is-rendered-verbatim] {C03} text == caller.leading.val && pos == caller.leading.pos
 //@   loop 0 invariant [imports-non-nil] forall(i, 0, len(t.imports), t.imports[i] != nil)
 //@   loop 1 invariant PInv(t) && t.Root != nil && fresh(t.Root)
 //@   loop 1 invariant [imports-non-nil] forall(i, 0, len(t.imports), t.imports[i] != nil)
